@@ -40,7 +40,14 @@ IdDescs == Flatten2([i \in DOMAIN BPairs |->
                      <<"idI", BPairs[i][1] \o <<3, 2>>, <<>>>>,
                      <<"idD", BPairs[i][1] \o <<3>>, BPairs[i][2] \o <<3>>>> >>])
 
-Descs == MyCases(MatMulDescs \o DotDescs \o TrDescs \o BadDescs \o IdDescs)
+(* sizes past the thresholds at which kernels are typically blocked, unrolled or parallelised *)
+LargeDescs == << <<"mm", <<12, 9>>, <<9, 8>>>>, <<"mm", <<3, 10>>, <<10, 3>>>>, <<"mm", <<16, 5>>, <<5, 9>>>>, <<"mm", <<9, 9>>, <<9, 9>>>>,
+                 <<"mm", <<2, 17>>, <<17, 2>>>>, <<"mm", <<4, 4, 4, 2, 2>>, <<2, 2>>>>, <<"mm", <<65, 1, 2>>, <<65, 2, 1>>>>, <<"mm", <<3, 23, 2, 3>>, <<3, 1, 3, 2>>>>,
+                 <<"dot", <<17>>, <<17>>>>, <<"dot", <<3, 33>>, <<33>>>>, <<"dot", <<70, 2>>, <<70, 2>>>>,
+                 <<"tr", <<17, 3>>, <<>>>>, <<"tr", <<4, 4, 4, 2, 3>>, <<>>>>, <<"tr", <<70, 2, 2>>, <<>>>> >>
+(* the SAME tensor used by several operations in turn (an operation must not leave anything behind on its operands) *)
+MixDescs == << <<"mix", <<1, 3>>, <<3, 3>>>>, <<"mix", <<2, 1, 2>>, <<2, 2>>>>, <<"mix", <<1, 2>>, <<2, 2>>>>, <<"mix", <<3, 1, 3>>, <<3, 3>>>> >>
+Descs == MyCases(LargeDescs \o MixDescs \o MatMulDescs \o DotDescs \o TrDescs \o BadDescs \o IdDescs)
 
 D == "any,wide,zero"
 Build(d) ==
@@ -50,6 +57,12 @@ Build(d) ==
                               <<Ins("dot", NoPar, <<1, 2>>)>>, <<3>>, 0, TRUE)
     [] d[1] = "tr" -> MkCase("c04", "transpose", <<In("a", d[2], FALSE)>>, <<"iota">>,
                              <<Ins("transpose", NoPar, <<1>>)>>, <<2>>, 0, TRUE)
+    [] d[1] = "mix" ->
+         LET t == BTarget(d[2], d[3])
+         IN MkCase("c04", "mixed-use", <<In("a", d[2], FALSE), In("b", d[3], FALSE)>>, <<"any", "any">>,
+                   <<Ins("matmul", NoPar, <<1, 2>>), Ins("add", NoPar, <<1, 2>>), Ins("sub", NoPar, <<2, 1>>), Ins("matmul", NoPar, <<1, 2>>),
+                     Ins("broadcast", [shape |-> t], <<1>>), Ins("mul", NoPar, <<1, 2>>), Ins("dot", NoPar, <<1, 2>>), Ins("add", NoPar, <<1, 2>>)>>,
+                   <<3, 4, 5, 6, 7, 8, 9, 10>>, 0, TRUE)
     [] d[1] = "idT" ->   \* (A.B)^T and B^T.A^T
          MkCase("c04", "id-transpose", <<In("a", d[2], FALSE), In("b", d[3], FALSE)>>, <<"any", "any">>,
                 <<Ins("matmul", NoPar, <<1, 2>>), Ins("transpose", NoPar, <<3>>),
